@@ -20,6 +20,9 @@ class CanonHdr:
     def length(self):
         return hdrlen(self.lo, self.hi, self.nc)
 
+    def length_of(self, ex):
+        return self.length()        # len(header_from_indices(...)): the length of the canonical header line
+
     def as_bytes_piece(self, ex, text):
         if text != self.text:
             raise SymRaise("TypeError", "write() argument str/bytes mismatch")
